@@ -20,6 +20,10 @@ claimed = {
    "Decides structural necessary conditions of the HTTP input contract: success response only on the processBulk==nil edge; read-loop exits (n==0 ∧ EOF / error), every chunk processed, carry-over threaded and flushed as last chunk; pooled buffers, gzip reader and source id released by dominating defers; free list under its mutex; one In per newline in the chunk scanner. It does not decide that the emitted lines equal the body's lines."),
  "C20": ("CFG control-dependence classification of every refusal return; guard-clause and result-shape rules for the size check; constant-verdict and reachability rules inside IsSpam", "§3 C20",
    "Decides structural necessary conditions of admission control: the refusal returns of In/streamEvent are exactly the documented reasons; checkInputBytes refuses/cuts/passes under exactly the documented guards with result shape bytes[:max](+newline); IsSpam is gated by threshold>=0 ∧ !partial; inside IsSpam disabled/exception/new-source return false, a matching exception reaches no other verdict, constant true only for blocked, counting verdict is counter>=threshold. It does not decide ban/unban arithmetic over histories."),
+ "C03": ("who-may-write classification of every writer of the committed offsets, interprocedural lock table, path-derived file-writer set, CFG control-dependence rules for persistence and resume", "§3 C03",
+   "Narrow: decides structural necessary conditions only — writers of Job.offsets (commit with the event's own offset, forward only, ignoring pre-truncation events; truncation 0; load), Job lock table, only the saver (or the pre-start operator reset) touches the offsets files, sync-mode save after every stored offset / async saver goroutine / save on stop, resume from the minimum saved stream offset and PassEvent refusing exactly offset<=saved. Nothing about kill instants, rotation or truncation histories is decided."),
+ "C07": ("CFG success-edge ordering (write -> fsync -> rename) with interprocedural durable-helper summaries, def-use of file names, lock-region check of the snapshot, writer/reader token agreement, raw-name taint into the line format", "§3 C07",
+   "Decides structural necessary conditions of an always-loadable offsets file: every rename onto an offsets file only behind the success edges of write and fsync of the same temp file (both savers), temp != live, single writer, snapshot under each job's lock and the saver's mutex, writer tokens = reader tokens, raw names reaching the line format (known finding K3). It does not decide load(save(x)) = x."),
 }
 NA = {
  "C06": "the claim is an equation between runtime byte positions (offset = start + scanned) for every content, buffer size and append split; no sound static argument in reach bounds it, and the only structural proxies are matches on one loop's arithmetic (a frozen fragment)",
